@@ -596,6 +596,9 @@ class Emit:
             e, unw = e[1], True
         if e[0] == "mcall" and e[2] == "get_mut" and len(e[3]) == 1 and self.lhs_name(e[1]) is not None:
             return self.lhs_name(e[1]), self.atom(e[3][0]), unw
+        if e[0] == "mcall" and e[2] in self.cfg.get("borrowcalls", {}) and len(e[3]) == 1:
+            V, ktmpl = self.cfg["borrowcalls"][e[2]]           # e.g. `self.get_store(id)`: the guard of shard `id % n`
+            return V, "(" + ktmpl.format(self.atom(e[3][0])) + ")", True
         return None
 
     def wb(self, names, borrows):
@@ -672,7 +675,8 @@ class Emit:
             # `for v in map.values_mut() { ... }`: every value is replaced by what the body makes of it
             V, y = self.lhs_name(x[2][1]), ident(x[1][1])
             return "let %s := (List.map (fun ((__k, %s) : _ × _) => (__k, (%s))) %s);\n    %s" % (V, y, self.imp(self.as_stmts(x[3]), y), V, cont())
-        if x[0] == "for" and not self.has_return(x) and "state" in self.cfg and any(self.uses_borrow(t[1], optb) for t in self.as_stmts(x[3]) if t[0] == "expr" and t[1][0] in ("iflet", "match")):
+        if x[0] == "for" and not self.has_return(x) and "state" in self.cfg and (any(self.uses_borrow(t[1], optb) for t in self.as_stmts(x[3]) if t[0] == "expr" and t[1][0] in ("iflet", "match"))
+                                                                                or any(t[0] == "let" and self.getmut(t[2]) for t in self.as_stmts(x[3]))):
             st = "(" + ", ".join(self.cfg["state"]) + ")" if len(self.cfg["state"]) > 1 else self.cfg["state"][0]
             body = self.cps(self.as_stmts(x[3]), None, lambda v: st, borrows, optb)
             return "let %s := (List.foldl (fun %s %s => (%s)) %s %s);\n    %s" % (st, st, self.pat(x[1]), body, st, self.atom(x[2]), cont())
@@ -685,6 +689,13 @@ class Emit:
             self.retwrap = old
             return ("let __l := (List.foldl (fun __st %s => match __st with\n    | Sum.inl __r => Sum.inl __r\n    | Sum.inr %s => (%s)) (Sum.inr %s) %s);\n    "
                     "(match __l with\n    | Sum.inl __r => __r\n    | Sum.inr %s => (%s))") % (self.pat(x[1]), st, body, st, self.atom(x[2]), st, cont())
+        if x[0] == "iflet" and x[2][0] == "mcall" and x[2][2] == "remove" and len(x[2][3]) == 1 and self.lhs_name(x[2][1]) is not None \
+                and "removefns" in self.cfg:
+            X, k = self.lhs_name(x[2][1]), self.atom(x[2][3][0])
+            g, rm = self.cfg["removefns"]
+            pre = "let __rm := (%s %s %s);\n    let %s := (%s %s %s);\n    %s" % (g, X, k, X, rm, X, k, self.wb([X], borrows))
+            x2 = ("iflet", x[1], ("path", ["__rm"]), x[3], x[4])
+            return pre + self.cps_branch(x2, lambda blk, b2: self.cps(self.as_stmts(blk) + rest if blk is not None else rest, tail, K, b2, optb), borrows, optb, wrapK=False)
         if x[0] in ("if", "iflet", "match") and (self.has_return(x) or self.uses_borrow(x, optb)):
             return self.cps_branch(x, lambda blk, b2, K2=None: self.cps(self.as_stmts(blk) + rest if blk is not None else rest, tail, K, b2, optb), borrows, optb, wrapK=False)
         w = self.assigned([s])
@@ -1107,6 +1118,23 @@ VISVOTE = [
          path={"VotingType::Visual": "true", "VotingType::Positional": "false"},
          mutmethods={"insert": "setInsert {0} {1}", "extend": "mapExtend {0} {1}"}),
 ]
+
+STORE_MAP_COMMON = dict(group="StoreMap", file="track/store.rs", impl=r"impl<TA, M, OA, N> TrackStore<TA, M, OA, N>\s*where[^{]*\{", cps=True, imperative=True,
+                        mapfns=("lstGet", "lstGetD", "lstSet"), borrowcalls={"get_store": ("stores", "{0} % num_shards")},
+                        removefns=("shGet", "shRemove"),
+                        fieldpath={"track.track_id": "(idOf track)", "self.num_shards": "num_shards", "self.stores": "stores"},
+                        method={"get": "shGet {0} {1}", "is_none": "Option.isNone {0}", "into": "{0}", "iter": "{0}", "lock": "{0}", "unwrap": "{0}", "len": "List.length {0}"},
+                        call={"Ok": "Except.ok {0}", "Err": "Except.error {0}", "Errors::DuplicateTrackId": "Track.Err.dup {0}", "Vec::default": "[]", "Vec::new": "[]"},
+                        mutmethods={"insert": "shInsert {0} {1} {2}"})
+STORE_MAP = [
+    dict(STORE_MAP_COMMON, name="store_add_track", fn="add_track", ret="({0}, stores)",
+         sig="{T E : Type} (idOf : T → Nat) (num_shards : Nat) (stores : List (List (Nat × T))) (track : T) : Except (Track.Err E) Nat × List (List (Nat × T))"),
+    dict(STORE_MAP_COMMON, name="store_fetch_tracks", fn="fetch_tracks", ret="({0}, stores)", state=["stores", "res"],
+         sig="{T : Type} (num_shards : Nat) (stores : List (List (Nat × T))) (tracks : List Nat) : List T × List (List (Nat × T))"),
+    dict(STORE_MAP_COMMON, name="store_shard_stats", fn="shard_stats", ret="{0}",
+         sig="{T : Type} (stores : List (List (Nat × T))) : List Nat"),
+    dict(STORE_MAP_COMMON, name="store_get_executor", fn="get_executor", ret="{0}", sig="(num_shards id : Nat) : Nat"),
+]
 # decision kernels over Nat / Rat (no field structure needed)
 GAL_METHOD = {"feature": "featureOf {0}", "attr": "{0}", "as_ref": "{0}", "unwrap": "{0}", "visual_quality": "quality {0}",
                  "partial_cmp": "cmpQ {0} {1}", "len": "List.length {0}", "iter": "{0}", "filter": "List.filter {1} {0}", "count": "List.length {0}"}
@@ -1213,7 +1241,7 @@ LOGIC = [
 def gen(repo, cfgs, header, footer):
     out, unread = [header], []
     for c in cfgs:
-        if c in LOGIC or c in TRACK or c in VOTING or c in TRACK_DIST or c in STORE or c in RECORDS or c in AUTOWASTE or c in VISVOTE:
+        if c in LOGIC or c in TRACK or c in VOTING or c in TRACK_DIST or c in STORE or c in RECORDS or c in AUTOWASTE or c in VISVOTE or c in STORE_MAP:
             c = dict(c, scalar=c.get("scalar", "Rat"))
         path = os.path.join(repo, "src", c["file"])
         try:
@@ -1370,6 +1398,16 @@ def setInsert (s : List Nat) (x : Nat) : List Nat := if s.contains x then s else
 /-- `HashMap::extend` -/
 def mapExtend {β : Type} (m : List (Nat × β)) (l : List (Nat × β)) : List (Nat × β) := l.foldl (fun m p => mapSet m p.1 p.2) m
 """
+PRELUDE_STOREMAP = """open SimVerif
+/-- the shards: `Vec<Mutex<HashMap<u64, Track>>>`; a guard obtained from `get_store` is a borrow of one shard -/
+def lstGet {β : Type} (l : List β) (k : Nat) : Option β := l[k]?
+def lstGetD {β : Type} (l : List (List β)) (k : Nat) : List β := l.getD k []
+def lstSet {β : Type} (l : List β) (k : Nat) (v : β) : List β := l.set k v
+/-- one shard (`HashMap<u64, Track>`): `get`, `insert` (overwrites), `remove` -/
+def shGet {β : Type} (sh : List (Nat × β)) (id : Nat) : Option β := (sh.find? (fun p => p.1 == id)).map (·.2)
+def shInsert {β : Type} (sh : List (Nat × β)) (id : Nat) (v : β) : List (Nat × β) := sh.filter (fun p => !(p.1 == id)) ++ [(id, v)]
+def shRemove {β : Type} (sh : List (Nat × β)) (id : Nat) : List (Nat × β) := sh.filter (fun p => !(p.1 == id))
+"""
 PRELUDE_SWAP = """/-- `slice::swap(i, j)` (indices in range: the code pushes an element first) -/
 def listSwap {α : Type} (l : List α) (i j : Nat) : List α :=
   match l[i]?, l[j]? with
@@ -1427,6 +1465,7 @@ def main():
     jobs.append(("LRecord.lean", RECORDS, HEADER_L + PRELUDE_RECORD, "SimVerif.Gen.L"))
     jobs.append(("LAutoWaste.lean", AUTOWASTE, HEADER_L, "SimVerif.Gen.L"))
     jobs.append(("LVisVoting.lean", VISVOTE, "import SimVerif.Gen.LBase\nimport SimVerif.Model.Voting\n" + HEADER_L + PRELUDE_VISVOTE, "SimVerif.Gen.L"))
+    jobs.append(("LStoreMap.lean", STORE_MAP, "import SimVerif.Model.Track\n" + HEADER_L + PRELUDE_STOREMAP, "SimVerif.Gen.L"))
     jobs.append(("LTrackDist.lean", TRACK_DIST, "import SimVerif.Gen.LTrack\nimport SimVerif.Model.Track\n" + HEADER_L + PRELUDE_TRACKDIST, "SimVerif.Gen.L"))
     jobs.append(("LConstr.lean", [c for c in LOGIC if c["group"] == "Constr"], HEADER_L + PRELUDE_DEDUP, "SimVerif.Gen.L"))
     jobs.append(("LBase.lean", [], HEADER_L + PRELUDE_BASE + PRELUDE_MAP, "SimVerif.Gen.L"))
